@@ -151,3 +151,28 @@ func init() {
 	specTable["(sigs.k8s.io/controller-runtime/pkg/client.Reader).Get"] = get
 	specTable["(sigs.k8s.io/controller-runtime/pkg/client.Client).Get"] = get
 }
+
+func init() {
+	// runtime.DeepCopyJSON(m): nil for nil; otherwise a freshly allocated map with the same key set whose values are deep copies
+	specTable["k8s.io/apimachinery/pkg/runtime.DeepCopyJSON"] = func(e *Exec, cc *callCtx) Val {
+		st := cc.st
+		src := cc.args[0].Term
+		mt, ok := unalias(cc.args[0].T).Underlying().(*types.Map)
+		if !ok {
+			return e.havocVal(cc.resT, cc.f.prefix+"dcjson")
+		}
+		fresh := e.freshRef(st, "dcjson")
+		dn, ds, vn, vs := e.mapNames(mt)
+		ln, ls := e.mapLenName(mt)
+		d, v, l := e.comp(st, dn, ds), e.comp(st, vn, vs), e.comp(st, ln, ls)
+		e.declDcval()
+		row := e.fresh(cc.f.prefix+"dcjsonrow", "(Array String Any)")
+		srcRow := e.define(cc.f.prefix+"dcjsonsrc", "(Array String Any)", Select(v, src))
+		e.assume(fmt.Sprintf("(forall ((kq String)) (! (= (select %s kq) (dcval (select %s kq))) :pattern ((select %s kq)) :pattern ((select %s kq))))", row, srcRow, row, srcRow), "DeepCopyJSON copies every value deeply")
+		e.setComp(st, dn, ds, Store(d, fresh, Select(d, src)))
+		e.setComp(st, vn, vs, Store(v, fresh, row))
+		e.setComp(st, ln, ls, Store(l, fresh, Select(l, src)))
+		res := e.define(cc.f.prefix+"dcjson", "Int", Ite(Eq(src, "0"), "0", fresh))
+		return Val{T: cc.resT, Term: res}
+	}
+}
